@@ -3,6 +3,7 @@ package ev
 import (
 	"bufio"
 	"bytes"
+	"encoding/json"
 	"fmt"
 	"os"
 	"os/exec"
@@ -10,6 +11,8 @@ import (
 	"strconv"
 	"strings"
 	"sync"
+	"syscall"
+	"time"
 )
 
 // ShardInfo tells a harness which part of a sharded exploration it is.
@@ -48,7 +51,21 @@ func RunShards(n int, testName string) (exit int, evidence []string) {
 			var buf bytes.Buffer
 			cmd.Stdout = &buf
 			cmd.Stderr = os.Stderr
-			err := cmd.Run()
+			// a shard has its own exploration deadline; one that is still alive long after it is a harness
+			// hang: make it dump its goroutines (SIGQUIT) instead of waiting for ever
+			err := cmd.Start()
+			if err == nil {
+				limit := 55 * time.Minute
+				if v, e := strconv.Atoi(os.Getenv("VERIF_SHARD_TIMEOUT_S")); e == nil && v > 0 {
+					limit = time.Duration(v) * time.Second
+				}
+				tm := time.AfterFunc(limit, func() {
+					fmt.Fprintf(os.Stderr, "HARNESS-ERROR: shard %d still running after %v; sending SIGQUIT\n", k, limit)
+					cmd.Process.Signal(syscall.SIGQUIT)
+				})
+				err = cmd.Wait()
+				tm.Stop()
+			}
 			code := 0
 			if ee, ok := err.(*exec.ExitError); ok {
 				code = ee.ExitCode()
@@ -84,4 +101,30 @@ func RunShards(n int, testName string) (exit int, evidence []string) {
 		}
 	}
 	return exit, evidence
+}
+
+// MinStageInt returns the minimum of coverage[key] over the given stage evidence files
+// (-1 if a file or the key is missing): what every shard completed.
+func MinStageInt(paths []string, key string) int {
+	min := -1
+	for i, p := range paths {
+		b, err := os.ReadFile(p)
+		if err != nil {
+			return -1
+		}
+		var st struct {
+			Coverage map[string]interface{} `json:"coverage"`
+		}
+		if json.Unmarshal(b, &st) != nil {
+			return -1
+		}
+		f, ok := st.Coverage[key].(float64)
+		if !ok {
+			return -1
+		}
+		if i == 0 || int(f) < min {
+			min = int(f)
+		}
+	}
+	return min
 }
